@@ -147,6 +147,7 @@ BadAdjs(C, est) == {a \in Adjs : ~(a - MinBurstableAdj + 1 <= Len(est)
 (*   q2m  : QuotaToMilliCPU(k * st, p)          for k in lo..hi            *)
 (*   memd : estimate table for capacity 1 MiB + i,      i in lo..hi        *)
 (*   memp : estimate table for capacity Pow2Cap(j),     j in lo..hi        *)
+(*   memw : estimate table for capacity 2^p + i,        i in lo..hi        *)
 (*   memr : estimate table for hi-lo+1 seeded random capacities            *)
 (*   est  : cache.InsertContainer for EstCase(j),       j in lo..hi        *)
 
@@ -188,6 +189,9 @@ Periods(tier) == IF tier = "quick" THEN <<100000, 10000, 1000000>>
 DensePeriods(tier) == IF tier = "quick" THEN <<100000>> ELSE <<100000, 5000, 1000000>>
 MemDense(tier) == IF tier = "quick" THEN 4096 ELSE 65535
 MemRandom(tier) == IF tier = "quick" THEN 200 ELSE 4000
+\* windows of consecutive capacities at larger magnitudes: 2^p + 0..MemWindow (thorough tier only)
+MemWindowExps(tier) == IF tier = "quick" THEN <<>> ELSE <<30, 34, 40>>
+MemWindow == 4095
 
 Plan(tier) ==
     LET T == 32768 IN
@@ -198,6 +202,7 @@ Plan(tier) ==
     \o Flatten([i \in 1 .. Len(Periods(tier)) |-> Pieces("q2m", 0, MaxMilli, T, Periods(tier)[i], Periods(tier)[i] \div 1000)])
     \o Flatten([i \in 1 .. Len(DensePeriods(tier)) |-> Pieces("q2m", 0, 262143, T, DensePeriods(tier)[i], 1)])
     \o Pieces("memd", 0, MemDense(tier), 128, 0, 0)
+    \o Flatten([i \in 1 .. Len(MemWindowExps(tier)) |-> Pieces("memw", 0, MemWindow, 128, MemWindowExps(tier)[i], 0)])
     \o Pieces("memp", 1, Pow2Caps, 20, 0, 0)
     \o Pieces("memr", 1, MemRandom(tier), 50, 0, 0)
     \o Pieces("est", 1, EstCases, 500, 0, 0)
